@@ -198,6 +198,24 @@ def main(argv=None):
     gen = lang.Gen(rng, max_depth=3, funcs=["exp", "cos", "sin", "atan", "log", "sqrt", "abs", "tan", "floor"], allow_mod=True,
                    allow_rel_arith=False)
     n = a.n or (36 if a.tier == "quick" else 900)
+    if a.replay:
+        import json as _json
+        import textmodel
+        data = _json.load(open(a.replay))
+        text = data["text"]
+        c0 = pipeline.Case(drv, text)
+        m = textmodel.model_from_items(c0.captured) if c0.err is None else None
+        pts = [data["inputs"]] if isinstance(data.get("inputs"), dict) and "states" in data["inputs"] else []
+        if m is not None:
+            pts += gen.inputs(m, 6)
+            for x in lang.model_summary(m)["states"][:2]:
+                p = dict(pts[-1]); p["states"] = dict(p["states"]); p["states"][x] = 0.0
+                pts.append(p)
+        core.guarded(rep, text, check_text, rep, drv, rng, text, data.get("delta", 1e-8),
+                     data.get("scheme", "generalized_rush_larsen"), pts, model=m)
+        rep.case(key=text, nontrivial=True)
+        drv.close()
+        return rep.finish(level="proof", rule="replay of " + a.replay, trusted_base=["see the full check"])
     # ---- directed: rates affine in the own state, coefficient around the guard
     for delta in ([1e-8, 1e-3, 0.0, 10.0] if a.tier == "quick" else DELTAS):
         text = "states(x=1, y=2)\nparameters(a=0.5, b=2, c=1)\ndx_dt = a*x + b*y\ndy_dt = x - c*y\n"
